@@ -8,7 +8,7 @@ DECIDING = ['peptacular.mass_calc.mass']
 RULE = ('relational post-condition on every mass() execution with resolvable modifications (top-level, nested from '
         'fragment/condense_to_mass_mods): mass == chem_mass(comp_mass(same arguments).composition, mode) + residual; '
         'and chem_mass(comp(..., estimate_delta=True)) == monoisotopic mass. Workload: generated annotations x 18 ion '
-        'types x charge -3..4 or from the string x isotope 0..3 x mode x adducts (string/argument) x labels '
+        'types x charge -3..4 (5%: two-digit charge states up to 25) or from the string x isotope 0..3 x mode x adducts (string/argument) x labels '
         '13C/15N/18O/D/T x static rules x multipliers x alternatives x tags x intervals x labile x unknown; plus every '
         'Unimod entry (average mode: CHNOPS entries) and every self-consistent PSI-MOD entry. signature = (ion type, '
         'mode, charge class, placements, spelling classes, labels, adducts); non-trivial = a modification, a label, '
@@ -147,6 +147,15 @@ def install(ctx, st: State):
                         kf = 'K2'
                 except Exception:
                     pass
+            if kf is None and not mono and ad is None:
+                # K11: average mode weighs every charge carrier as a CODATA proton on the mass side and as an average
+                # hydrogen atom minus an electron on the composition side (1.157e-4 Da apart per carrier; the first
+                # carrier of a fragment ion is part of its offset formula on both sides)
+                z = charge if charge is not None else (ann.charge or 0)
+                carriers = z if ion_type in ('p', 'n') else z - 1
+                band = atoms.average('H') - atoms.ELECTRON - atoms.PROTON
+                if carriers and abs((obs + carriers * band) - expected) <= t:
+                    kf = 'K11'
             ctx.violation('mass-differs-from-composition-mass',
                           {'sequence': seq if isinstance(seq, str) else ann.serialize(), 'ion_type': ion_type,
                            'charge': charge, 'monoisotopic': mono, 'isotope': isotope, 'charge_adducts': adducts,
@@ -188,6 +197,8 @@ def gen_case(rng, cfg):
     kw['monoisotopic'] = mono
     if rng.random() < 0.5 or (ion not in ('p', 'n') and p.charge is None):
         kw['charge'] = rng.randint(-3, 4)
+        if rng.random() < 0.05:
+            kw['charge'] = rng.choice([10, 11, 12, 15, 20, 25, -10, -12, -14])   # two-digit charge states
     if rng.random() < 0.4:
         kw['isotope'] = rng.randint(0, 3)
     if rng.random() < 0.12:
@@ -332,6 +343,9 @@ def reproduce(kf_id):
     if kf_id == 'K2':
         c, d = pt.comp_mass('PEPTIDE/2[+2Na+]')
         return abs(pt.mass('PEPTIDE/2[+2Na+]') - (pt.chem_mass(c) + d)) > 1e-4
+    if kf_id == 'K11':
+        c, d = pt.comp_mass('PEPTIDE/12')
+        return abs(pt.mass('PEPTIDE/12', monoisotopic=False) - (pt.chem_mass(c, monoisotopic=False) + d)) > 1e-3
     return None
 
 
